@@ -148,12 +148,15 @@ func (rq *retries) Add(obj any, rev statedb.Revision, origRev statedb.Revision, 
 			numRetries: 0,
 			index:      -1,
 			revIndex:   -1,
+			origRev:    origRev,
 		}
 		rq.items[keyStr] = item
 	}
+	// An item that already exists is the failed retry of the same change
+	// (changed objects are cleared first). It keeps its original revision,
+	// otherwise the low watermark would move past a change that still fails.
 	item.object = obj
 	item.rev = rev
-	item.origRev = origRev
 	item.delete = delete
 	item.numRetries += 1
 	item.lastError = lastError
